@@ -33,10 +33,10 @@ Definition path := list nat.       (* IndexStack: component indices from the mod
 (* which of the defects confirmed on the pinned tree are repaired in the modelled code *)
 Record flags := {
   fx_order : bool;   (* Reset::clone copies the order only when set              (84a9d17, already in /repo) *)
-  fx_encid : bool;   (* Component::clone copies the encapsulation id              (fixes/C11-component-encapsulation-id) *)
-  fx_isrc  : bool;   (* clones get their own ImportSource objects, sharing pattern preserved (fixes/C11-import-source) *)
-  fx_eqids : bool;   (* Model::clone copies mapping and connection ids            (fixes/C11-equivalence-ids) *)
-  fx_ext   : bool    (* equivalent variables outside the model are skipped        (fixes/C11-external-equivalence) *)
+  fx_encid : bool;   (* Component::clone copies the encapsulation id              (fixes/C11-1-component-encapsulation-id) *)
+  fx_isrc  : bool;   (* clones get their own ImportSource objects, sharing pattern preserved (fixes/C11-2-import-source) *)
+  fx_eqids : bool;   (* Model::clone copies mapping and connection ids            (fixes/C11-4-equivalence-ids) *)
+  fx_ext   : bool    (* equivalent variables outside the model are skipped        (fixes/C11-3-external-equivalence) *)
 }.
 Definition all_fixed : flags := {| fx_order := true; fx_encid := true; fx_isrc := true; fx_eqids := true; fx_ext := true |}.
 Definition pinned    : flags := {| fx_order := true; fx_encid := false; fx_isrc := false; fx_eqids := false; fx_ext := false |}.
